@@ -108,10 +108,14 @@ func VH_C06_handshakeIdempotent() bool {
 	hs0, n0 := s.hsIndex, s.nonce
 	a := s.Handshake([]byte{9})
 	b := s.Handshake([]byte{9})
-	if len(a) > 1 {
+	// until the handshake is over from this side's point of view (index >= 4) there is a current
+	// message to (re)transmit, whatever else the session has done meanwhile (e.g. sent data)
+	if hs0 < 4 && !(!s.isInit && hs0 == 0) {
 		vCover("has-message")
+		vAssert(len(a) > 1+4, "no-handshake-message-offered-although-handshake-incomplete")
 	} else {
 		vCover("no-message")
+		vAssert(len(a) == 0, "handshake-message-offered-after-completion")
 	}
 	return vEqBytes(a, b) && s.hsIndex == hs0 && s.nonce == n0
 }
@@ -157,5 +161,23 @@ func VH_C06_progressAndDuplicates() bool {
 	if err == nil {
 		vAssert(vEqBytes(out, cur), "duplicate-not-answered-with-current-message")
 	}
+	return true
+}
+
+//verif: replay=none unwind=130 cover=completed-by-data bounds="a session made ready by a data packet (RespDone lost) can send, and its first send uses a counter >= 16 (disjoint from the handshake's counters)"
+func VH_C06_completedByDataCanSend() bool {
+	s := vHsSession()
+	vAssume(!s.IsReady())
+	nonce := vU32()
+	vAssume(nonce >= 16 && nonce < 80)
+	isApp, _, _ := s.Deliver(nil, vPacket(nonce, vBytes(1)), vT(5))
+	if !isApp || !s.IsReady() {
+		return true
+	}
+	vCover("completed-by-data")
+	n0 := s.nonce
+	out, err := s.Send(nil, []byte{1}, vT(5))
+	vAssert(err == nil && len(out) == 4+1+16, "ready-session-cannot-send")
+	vAssert(n0 >= noncePostHandshake, "first-data-counter-collides-with-handshake-counters")
 	return true
 }
